@@ -244,7 +244,7 @@ func (g *sim) runOne(id string) {
 		}
 		g.nextRel++
 		g.rels[g.nextRel] = t
-		args = append(args, fmt.Sprintf("inter=%d:F.devrestart.%d+F.relup.%d.%d+mast:%d", g.r.Intn(5), t, g.nextRel, t, t))
+		args = append(args, fmt.Sprintf("inter=%s%d:F.devrestart.%d+F.relup.%d.%d+mast:%d", g.mode(), g.r.Intn(5), t, g.nextRel, t, t))
 		g.tags["pre-empted"], g.tags["restart-inside-resync"] = true, true
 	} else if g.p.Inter && g.r.Chance(1, 3) {
 		// pre-emption: another reconciler (a different work-queue partition) runs one whole invocation
@@ -263,7 +263,7 @@ func (g *sim) runOne(id string) {
 			}
 		}
 		if len(cands) > 0 {
-			args = append(args, fmt.Sprintf("inter=%d:%s", g.r.Intn(3), cands[g.r.Intn(len(cands))]))
+			args = append(args, fmt.Sprintf("inter=%s%d:%s", g.mode(), g.r.Intn(3), cands[g.r.Intn(len(cands))]))
 			g.tags["pre-empted"] = true
 		}
 	}
@@ -409,7 +409,7 @@ func Generate(r *rng.R, p Profile) fw.Case {
 				if r.Chance(1, 3) && g.nTx > 0 {
 					a = fmt.Sprintf("prop:%d:%d", t, r.Range(1, g.nTx))
 				}
-				out := g.do(fmt.Sprintf("v2.run %s inter=%d:mast:%d", a, r.Intn(2), t))
+				out := g.do(fmt.Sprintf("v2.run %s inter=%s%d:mast:%d", a, g.mode(), r.Intn(2), t))
 				g.tags["pre-empted"] = true
 				if strings.Contains(out, "effects=") && !strings.Contains(out, "effects=0 ") {
 					g.tags["write"] = true
@@ -510,4 +510,13 @@ func partitionOf(id string) string {
 		return "prop:" + f[1]
 	}
 	return id
+}
+
+// mode: a pre-emption lands just before an effect ("") or right after one has completed ("a"): the
+// two differ exactly when the real code reads the stores again between two of its writes.
+func (g *sim) mode() string {
+	if g.r.Chance(1, 2) {
+		return "a"
+	}
+	return ""
 }
